@@ -13,6 +13,7 @@ from ..common import *
 from ..stages import *
 from . import _hidabs as H
 from . import _placement as P
+from . import _flexalg as FA
 
 THEOREMS = [
     'C06_grid_never_placed : Forall2 (same_but Absolute (fun _ _ => True)) cs cs\' -> in_flow_children cs = in_flow_children cs\'',
@@ -33,6 +34,9 @@ THEOREMS = [
     'C06_block_algorithm_abs_blind : AbsChildLocal abs_child -> AbsBlind (block_alg pre abs_child) bs_visible_absolute out_eq lay_eq   '
     '[block_alg = compute_inner as a resumption, Model/BlockAlg.v]',
     'C06_block_engine_instance : the conclusion of C06_abs_blind_engine for engines of block containers and leaves, no premise on the algorithms',
+    'C06_flex_algorithm_abs_blind : AbsBlind flex_alg f_visible_absolute fout_eq flay_eq   [flex_alg = compute_flexbox_layout as a resumption, '
+    'Model/FlexAlg.v, K-exact against the event trace of the implementation]',
+    'C06_blockflex_engine_instance : the conclusion of C06_abs_blind_engine for engines of block containers, flex containers and leaves',
 ]
 
 
@@ -50,7 +54,9 @@ def run(rep, tier, seed, replay=None):
         'engine skeleton Model/Engine.v is hand-written (tied by the engine correspondence of C01 / C05 / C15)',
         'interface hypothesis AbsBlind: PROVED for the block algorithm as modelled in Model/BlockAlg.v (compute_inner as a resumption, assembled from '
         'the translated item pipeline, Model/Block.v inflow_step (K1/K2/K3 of C10/C06) and an absolute-item routine abstracted to "addresses only '
-        'item.node_id", which the translator checks syntactically); NOT proved for the flex tail and the grid tail: validated through the metamorphic '
+        'item.node_id", which the translator checks syntactically) and for the FLEX algorithm as modelled in Model/FlexAlg.v (all of '
+        'compute_flexbox_layout as a resumption; the absolute pass is the kernel translated for C11; hand model validated event by event, bit for bit, '
+        'against the implementation by `vh flexalg cases` on every run); NOT proved for the grid tail: validated through the metamorphic '
         'oracle on the implementation; REFUTED for grid on the known class (C06_grid_estimate_absolute_refuted)',
         'translator/gen_filters.py (item-generation pipelines, per-item predicates of block.rs, syntactic locality checks); fails closed',
         'that track counts determine the container size (track sizing, 7px auto rows: 28 vs 7) is observed on the implementation '
@@ -74,6 +80,8 @@ def run(rep, tier, seed, replay=None):
     # ---- K3: block containers with absolute / hidden children interleaved, vs the block model the new theorems are about
     if not replay:
         H.block_k(rep, 'C06', binp, seed + 660, 3600 if escalate else 900, p_absolute=300, p_hidden=0)
+        # ---- K4: the flex resumption (Model/FlexAlg.v) vs the event trace of compute_flexbox_layout (another seed than C05)
+        FA.flexalg_k(rep, 'C06', binp, seed + 6060, 1500 if escalate else 400, payload_is_broken=False)
     for t in THEOREMS:
         rep.cov['samples'].append({'theorem': t})
     # ---- search
